@@ -798,9 +798,10 @@ func c10Programs(c *core.Ctx) []c10Prog {
 			}
 		}
 		// shared body: two goroutines run one function value on swapped channels (main without own ops, or one op)
+		// (quick: of the one-op mains only those whose operation opens a block, i.e. allocates a frame while the goroutines run)
 		for mi, mn := range mains {
-			if c.Quick() && mi > 0 {
-				break
+			if c.Quick() && mi > 0 && !(mn[0].Kind == "recv2" || mn[0].Kind == "range") {
+				continue
 			}
 			for _, s1 := range scripts {
 				progs = append(progs, c10Prog{Caps: caps, Shared: true, Threads: [][]c10Op{mn, s1, c10Swap(s1)}})
